@@ -66,10 +66,13 @@ Proof. intros tt H. apply C01_undo_restores_docs_calcs_partial. apply EOps_laws.
        C01_refuted_front_restore_written_cell (the bundle wrote the cell before the recalculation);
      - the per-column flush of doModifyColumn for a column that has no pending delta (a no-op on the lists);
      - the triple of doModifyColumn: ModifyColumn t c (any change of the column info, INCLUDING a change of type), the
-       conversion delta Calc t c (optional), FlushCol t c -- one step of the invariant (increment 3).  Side conditions:
-       the column had no pending delta; every row of the conversion delta exists and its `before` equals the cell before
-       the ModifyColumn up to encoding; every row that the delta does not change (in encoding) survives the type round
-       trip: Column.set under the new type gives a value of the same encoding.
+       conversion delta Calc t c (optional), FlushCol t c -- one step of the invariant (increment 3).  The column may
+       have a pending delta already (a formula column that was recalculated and is now turned into a data column: the
+       case the per-column flush exists for); the deltas merge.  Side conditions (`modflush_okb`, per row, with the value
+       "before" = the `before` of the pending delta if there is one, else the cell before the ModifyColumn): every row of
+       the popped delta exists and its `before` equals the value before up to encoding; a row that the popped delta
+       changes (in encoding) holds the converted `after` afterwards; every other row survives the type round trip
+       (Column.set under the new type keeps the encoding of the value before) and holds that value afterwards.
    The proof (Proofs/ActionLog_stage3.v) carries a ghost document g that follows only the doc actions, related to the
    real document through the pending deltas (calc_rel), with: the undo list so far restores the start document from any
    document that agrees with g outside the cells created in the bundle (tr_ok); the stored list so far, replayed on the
@@ -393,6 +396,28 @@ Example C01_modify_flush_nonvacuous :
 Proof.
   split; [vm_compute; reflexivity|]. split; [vm_compute; reflexivity|]. eexists. eexists. eexists.
   split; [vm_compute; reflexivity|]. split; [reflexivity|]. split; vm_compute; reflexivity.
+Qed.
+
+(* ... and on a column that has a pending delta: the formula column F is recalculated (10 -> 11) and then turned into a
+   data column; the per-column flush pops the delta, whose restore ends up before the ModifyColumn undo. *)
+Definition ex11_events : list (event ZOps) :=
+  [ Doc ZOps (BulkUpdateRecord ZOps nT [1] [(nA, [11])]);
+    Calc ZOps nT nF [(1, (10, 11))];
+    Doc ZOps (ModifyColumn ZOps nT nF (mkMI None (Some false) None None));
+    FlushCol ZOps nT nF;
+    Doc ZOps (BulkUpdateRecord ZOps nT [2] [(nF, [99])]) ].
+
+Example C01_modify_flush_pending_nonvacuous :
+  bundle_ok3 ZOps ex3_state ex11_events = true /\
+  exists s' out s'', run ZOps ex3_state ex11_events = Ok (s', out) /\
+                 o_undo ZOps out = [BulkUpdateRecord ZOps nT [1] [(nA, [10])]; BulkUpdateRecord ZOps nT [1] [(nF, [10])];
+                                    ModifyColumn ZOps nT nF (mkMI None (Some true) None None);
+                                    BulkUpdateRecord ZOps nT [2] [(nF, [20])]] /\
+                 replay_doc ZOps (rev (o_undo ZOps out)) s' = Ok s'' /\
+                 view ZOps s'' = [(nT, [1; 2], [(nA, ciData, [10; 20]); (nF, ciFormula, [10; 20])])].
+Proof.
+  split; [vm_compute; reflexivity|].
+  eexists. eexists. eexists. split; [vm_compute; reflexivity|]. split; [reflexivity|]. split; vm_compute; reflexivity.
 Qed.
 
 (* ------------------------------------------------------------------------------------------------ *)
